@@ -14,7 +14,7 @@ META = dict(
     functions_encoded=['(*Deb).CheckDebsig', 'deb.Load', 'loadDeb', 'loadDeb2', 'loadDeb2Control', 'loadDeb2Data', 'io.MultiReader / io.SectionReader.Seek from SSA', 'the ar reader'],
     stubs=['idealised OpenPGP (engine/symgo/pgpmodel.py): a detached signature is the record (key, signed bytes); verification drains the signed-data reader and succeeds iff the key is in the keyring and the bytes are exactly the signed ones',
            'abstract codecs and tar as in C14', 'map iteration order: every permutation of the member map is explored at each range statement'],
-    bounds={'quick': 'a package with debian-binary, control.tar.gz, data.tar and _gpgorigin; symbolic maintainer (2 characters) and payload (2 bytes); signer one of two keys, each of four keyrings, asked role origin or another; after signing: nothing, one symbolic byte of the control paragraph, one of the payload, a signature over other bytes; a decoy second control.* or data.* member; every rotation of the iteration order of the member map (what the Go runtime produces for small maps) at each of the three range statements, independently',
+    bounds={'quick': 'a package with debian-binary, control.tar.gz, data.tar and _gpgorigin; symbolic maintainer (2 characters) and payload (2 bytes); signer one of two keys, each of four keyrings, asked role origin or another; after signing: nothing, one symbolic byte of the control paragraph, one of the payload, a signature over other bytes; a decoy second control.* or data.* member (tarball names, and the signed tarball parked under control.orig beside a foreign control.tar.gz); a second verification of the same Deb with a keyring that lacks the signer; every rotation of the iteration order of the member map (what the Go runtime produces for small maps) at each of the three range statements, independently',
             'thorough': 'the same with 3-character leaves and both decoys together'},
     outside_claim=['the cryptographic strength of OpenPGP (idealised)', 'real codecs (as in C14)'],
     assumptions=['idealised signatures'])
@@ -29,7 +29,9 @@ def jobs(tier):
     for tamper in (1, 2, 3):
         for keyring in (2, 4):
             js.append(dict(name='tamper_%d_%d' % (tamper, keyring), signer=0, keyring=keyring, ask=b'origin', tamper=tamper, decoy=0))
-    for decoy in (1, 2):
+    for second in (1, 3):
+        js.append(dict(name='twice_%d' % second, signer=0, keyring=2, ask=b'origin', tamper=0, decoy=0, second=second))
+    for decoy in (1, 2, 3):
         for keyring in (2, 4):
             js.append(dict(name='decoy_%d_%d' % (decoy, keyring), signer=0, keyring=keyring, ask=b'origin', tamper=0, decoy=decoy))
     return js
@@ -41,7 +43,7 @@ def run_job(env, job):
     nb = z3.BitVec('nb', 8)
     if job['tamper'] == 1:
         assume.append(in_set(nb, TXT))
-    return run_harness(env, PKG, 'VerifC16', [job['signer'], job['keyring'], job['ask'], job['tamper'], job['decoy'], maint, payload, nb, 1], assume, unwind=600, unsigned=(7,),
+    return run_harness(env, PKG, 'VerifC16', [job['signer'], job['keyring'], job['ask'], job['tamper'], job['decoy'], maint, payload, nb, 1, job.get('second', 0)], assume, unwind=600, unsigned=(7,),
                        interp_kw=dict(map_orders='rot' if env.tier == 'quick' else 'perm', map_order_filter='ArEntry'), timeout_ms=300000,
                        sample=dict(signer=job['signer'], keyring_mode=job['keyring'], asked_role=job['ask'].decode(), altered_after_signing=job['tamper'], decoy_member=job['decoy'], map_orders='every rotation (quick) / permutation (thorough) of the member map at each of the three range statements'))
 
@@ -53,9 +55,9 @@ def replay_args(c):
 
 
 def validation_calls(env, seed):
-    calls = [('VerifC16', [0, 2, b'origin', 0, 0, b'Mm', b'pp', 0, 1]), ('VerifC16', [1, 4, b'origin', 0, 0, b'Mm', b'pp', 0, 1]), ('VerifC16', [0, 3, b'origin', 0, 0, b'Mm', b'pp', 0, 1]),
-             ('VerifC16', [0, 2, b'maint', 0, 0, b'Mm', b'pp', 0, 1]), ('VerifC16', [0, 2, b'origin', 1, 0, b'Mm', b'pp', 0x41, 1]), ('VerifC16', [0, 2, b'origin', 2, 0, b'Mm', b'pp', 0x41, 1]),
-             ('VerifC16', [0, 2, b'origin', 3, 0, b'Mm', b'pp', 0, 1])]
+    calls = [('VerifC16', [0, 2, b'origin', 0, 0, b'Mm', b'pp', 0, 1, 0]), ('VerifC16', [1, 4, b'origin', 0, 0, b'Mm', b'pp', 0, 1, 0]), ('VerifC16', [0, 3, b'origin', 0, 0, b'Mm', b'pp', 0, 1, 0]),
+             ('VerifC16', [0, 2, b'maint', 0, 0, b'Mm', b'pp', 0, 1, 0]), ('VerifC16', [0, 2, b'origin', 1, 0, b'Mm', b'pp', 0x41, 1, 0]), ('VerifC16', [0, 2, b'origin', 2, 0, b'Mm', b'pp', 0x41, 1, 0]),
+             ('VerifC16', [0, 2, b'origin', 3, 0, b'Mm', b'pp', 0, 1, 0])]
     return calls
 
 
